@@ -618,9 +618,9 @@ func (r *Request) executeHandler() {
 			}
 			str = e.Message
 		case error:
-			str = e.Error()
+			str = errorString(e)
 			if !r.replied {
-				r.error(ToError(e), r.meta())
+				r.error(InternalError(errors.New(str)), r.meta())
 			}
 		case string:
 			str = e
@@ -639,6 +639,18 @@ func (r *Request) executeHandler() {
 
 	r.callHandler()
 	returned = true
+}
+
+// errorString returns err.Error(), or a description of the value if its Error
+// method panics, as it does for a nil pointer of an error type whose method
+// dereferences the receiver.
+func errorString(err error) (str string) {
+	defer func() {
+		if v := recover(); v != nil {
+			str = fmt.Sprintf("%T value whose Error method panics: %v", err, v)
+		}
+	}()
+	return err.Error()
 }
 
 // callHandler calls the handler matching the request type.
